@@ -6,6 +6,7 @@ CONSTANTS
   BufsOf <- MCBufsOf
   Home <- MCHome1
   Progs <- MCProgs
+  CtxOf <- MCCtx1
   MaxOps1 = 2
   MaxOps2 = 2
   Deviations = {"ClearOnAck"}
